@@ -33,7 +33,7 @@ Proof. induction ms as [|m ms']; simpl; auto. Qed.
 
 Lemma op_prog_balanced mods o : balanced (op_prog mods o) = true.
 Proof.
-  unfold balanced. destruct o as [c spec d|m lv py|c|c]; simpl; auto.
+  unfold balanced. destruct o as [c spec d|m lv py|c|c|c sp|c sp]; simpl; auto.
   - unfold logging_ops. destruct (req_targets mods spec) as [ms|]; simpl; auto.
     destruct (check_level d) as [lv|e]; simpl; auto.
     apply balanced_tabs_held. reflexivity.
